@@ -133,10 +133,115 @@ def _inplace_history(case, ctx, fails):
                 fails.append(Failure("%s:stale-answer-after-in-place-edit" % name, "same array object, node %d cut off in place" % cut, case))
 
 
+def _held_results_history(case, ctx, fails):
+    """a caller keeps the matrices returned by one call while calling the library again on ANOTHER network of the same size;
+    what it holds must not change (a routine that hands out an internal work buffer would overwrite it)"""
+    import copy
+    from .. import compare
+    kind = case["kind"]
+    W = np.array(case["W"], dtype=float)
+    n = len(W)
+    if n < 2:
+        return
+    tr = {"inv": "inv", "log": "log"}.get(kind)
+    fns = [("distance_wei_floyd", lambda M: bct.distance_wei_floyd(M, transform=tr))]
+    if kind in ("bin", "len"):
+        fns.append(("distance_wei", bct.distance_wei))
+    if kind == "bin":
+        fns += [("distance_bin", bct.distance_bin), ("reachdist", bct.reachdist), ("breadthdist", bct.breadthdist)]
+    # another network of the same size: the reversed numbering of the same one, with one connection removed
+    W2 = W[::-1, ::-1].copy()
+    nz = np.argwhere(W2 != 0)
+    if len(nz):
+        W2[nz[0][0], nz[0][1]] = 0
+    for name, f in fns:
+        o1 = ctx.call(f, gen.layout(W.copy(), case.get("order")))
+        if not o1.ok:
+            continue
+        snap = copy.deepcopy(o1.value)
+        ctx.call(f, gen.layout(W2.copy(), case.get("order")))
+        ctx.call(f, W2.T.copy())
+        d = compare.deep_equal(o1.value, snap, 0.0, 0.0)
+        if d:
+            fails.append(Failure("%s:earlier-result-changed-by-later-call" % name,
+                                 "the value returned for one network changed while the routine was called on another network of the same size: %s" % d, case))
+
+
+def check_large_bin(case, ctx):
+    """0/1 networks of 260-530 nodes in which many walks of equal length join the same two nodes (hubs sharing 255..512 neighbours):
+    the number of such walks reaches the wrap-around points of 8- and 16-bit counters. Reference: scipy's unweighted BFS."""
+    from scipy.sparse.csgraph import shortest_path
+    W = gen.layout(np.array(case["W"], dtype=float), case.get("order"))
+    n = len(W)
+    fails = []
+    ctx.label("large-structured:" + case["family"])
+    Dref = shortest_path(W, method="D", directed=True, unweighted=True)
+    off = ~np.eye(n, dtype=bool)
+    with np.errstate(divide="ignore"):
+        eff_ref = float(np.mean(1.0 / Dref[off]))
+    directed = not np.array_equal(W, W.T)
+    D = _run(ctx, fails, case, bct.distance_bin, gen.layout(W.copy(), case.get("order")))
+    if D is not None:
+        D = np.asarray(D, dtype=float)
+        if D.shape != Dref.shape or np.any((D != Dref) & off):
+            u, v = np.argwhere((D != Dref) & off)[0]
+            fails.append(Failure("distance_bin:distance-wrong", "pair (%d,%d) of a %d-node network: returned %r, BFS gives %r" % (u, v, n, D[u, v], Dref[u, v]), case))
+        else:
+            cp = _run(ctx, fails, case, bct.charpath, D)
+            if cp is not None:
+                _scalar("charpath", cp[1], eff_ref, case, fails, "efficiency")
+    if not directed:
+        e = _run(ctx, fails, case, bct.efficiency_bin, gen.layout(W.copy(), case.get("order")))
+        if e is not None:
+            _scalar("efficiency_bin", e, eff_ref, case, fails, "global")
+    for name in ("breadthdist", "reachdist"):
+        r = _run(ctx, fails, case, getattr(bct, name), gen.layout(W.copy(), case.get("order")))
+        if r is not None:
+            Dr = np.asarray(r[1], dtype=float)
+            if Dr.shape != Dref.shape or np.any((Dr != Dref) & off):
+                fails.append(Failure("%s:distance-wrong" % name, "%d-node network" % n, case))
+    ctx.mark_nontrivial(case)
+    return fails
+
+
+@st.composite
+def large_bin_cases(draw):
+    m = draw(st.sampled_from([256, 512, 255, 257, 300, 511]))
+    fam = draw(st.sampled_from(["two-hubs", "three-hubs", "relay-directed"]))
+    hubs = 3 if fam == "three-hubs" else 2
+    tail = draw(st.integers(0, 4))
+    iso = draw(st.integers(0, 1))
+    n = hubs + m + tail + iso
+    A = np.zeros((n, n))
+    mids = range(hubs, hubs + m)
+    if fam == "relay-directed":
+        for v in mids:
+            A[0, v] = 1      # source -> m relays -> sink: exactly m walks of length 2
+            A[v, 1] = 1
+    else:
+        for h in range(hubs):
+            for v in mids:
+                A[h, v] = A[v, h] = 1
+    prev = 0
+    for q in range(tail):   # a short path hanging off the first hub
+        v = hubs + m + q
+        A[prev, v] = 1
+        if fam != "relay-directed":
+            A[v, prev] = 1
+        prev = v
+    if draw(st.booleans()):
+        A = gen.apply_perm(A, draw(gen.perm(n)))
+    return {"kind": "bin-large", "W": A, "family": "%s-%d" % (fam, m), "order": draw(st.sampled_from(gen.ORDERS))}
+
+
 def check(case, ctx):
+    if case.get("kind") == "bin-large":
+        return check_large_bin(case, ctx)
     fails = _check(case, ctx)
     if not fails:
         _inplace_history(case, ctx, fails)
+    if not fails:
+        _held_results_history(case, ctx, fails)
     return fails
 
 
@@ -366,9 +471,12 @@ def cases(draw, nmax, kinds):
     W = np.zeros((n, n))
     case = {"kind": kind, "order": order, "cut": draw(st.integers(0, 2))}
     if kind == "len":
-        sub = draw(st.sampled_from(["tie", "mixed-int", "dyadic", "near-sym", "scaled"]))
+        sub = draw(st.sampled_from(["tie", "mixed-int", "hair", "dyadic", "near-sym", "scaled"]))
         if sub == "tie":
             vals = [gen.TIE[k] for k in draw(st.lists(st.integers(0, 2), min_size=m, max_size=m))]
+        elif sub == "hair":
+            # routes that differ by a few parts in 10^10 next to links shorter than that difference (all dyadic: every sum is exact)
+            vals = [gen.HAIR[k] for k in draw(st.lists(st.integers(0, len(gen.HAIR) - 1), min_size=m, max_size=m))]
         elif sub in ("mixed-int", "near-sym"):
             # lengths of very different magnitude, near-ties among the large ones (integers: every sum is exact)
             vals = [gen.MIXED_INT[k] for k in draw(st.lists(st.integers(0, len(gen.MIXED_INT) - 1), min_size=m, max_size=m))]
@@ -457,6 +565,7 @@ def _w_cases(tier, lo, hi):
 def units(tier):
     big = 12 if tier == "quick" else 30
     return [
+        Unit("large-structured-binary", check, strategy=large_bin_cases, examples=(40, 200), shards=(8, 16)),
         Unit("exhaustive-lengths", check, count=_w_total, cases=_w_cases, shards=(16, 64),
              space="; ".join(sp.describe() for sp in _wspace(tier)) + " used as length matrices (every tie pattern on these sizes)"),
         Unit("exhaustive-binary", check, count=lambda t: _space(t).total, cases=_exh_cases,
